@@ -40,35 +40,43 @@ Theorem declare_var_through_block_rejected :
 Proof. exact declare_var_through_block_rejected_proof. Qed.
 Print Assumptions declare_var_through_block_rejected.
 
-(* resolution_correct, for the fragment [core_d] = {Block; anonymous Func and parenthesised Arrow whose
-   parameter list consists of plain parameters and of default-value expressions (references, and functions /
-   arrows of the same kind, nested to any depth) such that no default value mentions a later parameter of its
-   list or a name declared in the function body (the two shapes refuted below); Catch with plain parameters
+(* resolution_correct, for the fragment [core_x] = {Block; Func (function declarations and expressions, with or
+   without expression name) and parenthesised Arrow whose parameter list consists of plain parameters and of
+   default-value expressions (references, and functions / arrows / classes of the same kind, nested to any
+   depth) such that no default value mentions a later parameter of its list or a name declared in the
+   function body, and whose expression name is not also a parameter or a declaration of the body (the shapes
+   refuted below); For loops (loop head with let / const / var declarations and arbitrary initialisers, one Scope
+   with MarkForStmt) whose head mentions no name that the body declares lexically; Catch with plain parameters
    that the catch block does not redeclare by var/function; Class bodies without a class-expression name
-   (methods, field values, computed keys, static blocks without var), also inside default values; Decl var /
-   function / let-const-class / parameter / catch parameter; Ref}: arbitrary nesting, shadowing at every level, use before declaration, hoisting of
-   var/function through nested and sibling blocks and catch clauses, closures that use names declared later,
-   default values that mention earlier parameters, outer bindings or free names (MarkFuncArgs / NumArgUses).
-   For every such program without redeclaration error ([program_ok]) and fewer than 2^16 identifier
-   occurrences: the model, run on the parser's events for the program ([run_program] = prun on
-   [EEnter true :: linearise p]), does not reject, panic or run out of fuel, and
+   (methods, field values, computed keys, static blocks without var); Decl var / function / let-const-class /
+   parameter / catch parameter; Ref}: arbitrary nesting, shadowing at every level, use before declaration,
+   hoisting of var/function through nested and sibling blocks, loops and catch clauses, closures that use names
+   declared later, default values that mention earlier parameters, outer bindings or free names
+   (MarkFuncArgs / NumArgUses), loop variables captured by closures of the body (MarkForStmt / NumForDecls).
+   For every such program without redeclaration error ([program_ok]), in which no name is bound both in an
+   auxiliary scope of ECMAScript (function-expression name, loop-head let) and in the main scope that shares
+   its parser Scope ([aux_distinct]; it follows from the side conditions of [core_x] and is a computable
+   check of the declarative resolution), and with fewer than 2^16 identifier occurrences: the model, run on
+   the parser's events for the program ([run_program] = prun on [EEnter true :: linearise p]), does not
+   reject, panic or run out of fuel, and
      (1) two occurrences are in the same Var after following Link iff the declarative resolver
          ([spec_resolve]) gives them the same declaration;
      (2) an occurrence bound nowhere is an undeclared variable (Decl = NoDecl) of the outermost scope's
          Undeclared list, under its own name;
      (3) an occurrence that is bound is a declared variable (Decl <> NoDecl) of that name;
      (4) Uses of the Var of an occurrence is the number of occurrences that share it.
-   NOT covered by this theorem (hence _partial): loop heads (NumForDecls), default values outside the side
-   condition above, destructuring defaults in catch heads, var redeclaring a catch parameter,
-   class-expression names, x => ... and the arrow cover grammar (UndeclareScope), function-expression names; these are checked by
-   the correspondence runs and the oracle only, and /repo deviates from ECMAScript on several of them
+   NOT covered by this theorem (hence _partial): the shapes excluded by the side conditions above (on which
+   /repo deviates from ECMAScript, see the _refuted theorems), destructuring defaults in catch heads, var
+   redeclaring a catch parameter, class-expression names, x => ... and the arrow cover grammar
+   (UndeclareScope); these are checked by the correspondence runs and the oracle only
    (KNOWN_FINDINGS.txt, keys c04-es:... and c04-reject:...).
    Example (hypotheses satisfiable, non-trivial partition): Main.example_hyps, Main.example_partition,
    Main.example_d_hyps, Main.example_d_partition (default values), Main.example_c_hyps,
-   Main.example_c_partition (classes). *)
+   Main.example_c_partition (classes), Main.example_x_hyps, Main.example_x_partition (loops, expression names). *)
 Theorem resolution_correct_partial :
   forall p : prog,
-    core_d p = true -> program_ok p = true -> Z.of_nat (occurrences p) < 65536 ->
+    core_x p = true -> program_ok p = true -> aux_distinct (spec_resolve p) = true ->
+    Z.of_nat (occurrences p) < 65536 ->
     exists ps,
       run_program p = Running ps /\
       let st := pst ps in
@@ -87,7 +95,8 @@ Theorem resolution_correct_partial :
 Proof. exact resolution_correct_core. Qed.
 Print Assumptions resolution_correct_partial.
 
-(* rename_alpha (on the fragment of resolution_correct_partial, as its corollary): take any assignment rho of
+(* rename_alpha (on [core_d] = the fragment of resolution_correct_partial without loops and function-expression
+   names, as its corollary): take any assignment rho of
    new names to Vars that gives distinct names, not occurring in the program, to the declared Vars and leaves
    undeclared Vars alone.  The program in which every identifier occurrence is replaced by rho of its Var
    ([rename_prog], same tree shape) is in the fragment again (and in the fragment without default values and
